@@ -13,13 +13,13 @@ enum { FL_SELF_DIRECT = 1, FL_FORCE = 2, FL_FAIL_DIRECT = 4, FL_SELF_SKIP = 256,
 struct Bcast { int in_pool = 0, pool_idx = 0, api = 0, flags = 0, src_own = 0, cb_usec = 0; };
 struct Fault { int fn = 0, k = 0, err = 0; };
 struct BcCase {
-  int nthreads = 1, skip_first = 0, detach_mask = 0;
+  int nthreads = 1, skip_first = 0, detach_mask = 0, pool_flags = 0;
   std::vector<Bcast> b;
   Bytes plan;
   std::vector<Fault> faults;
   std::string ser() const {
     Writer w;
-    w.i("nthreads", nthreads).i("skip_first", skip_first).i("detach_mask", detach_mask).i("nbcasts", (long long)b.size());
+    w.i("nthreads", nthreads).i("skip_first", skip_first).i("detach_mask", detach_mask).i("pool_flags", pool_flags).i("nbcasts", (long long)b.size());
     for (size_t i = 0; i < b.size(); i++)
       w.iv(("b" + std::to_string(i)).c_str(), {b[i].in_pool, b[i].pool_idx, b[i].api, b[i].flags, b[i].src_own, b[i].cb_usec});
     w.b("plan", plan);
@@ -31,7 +31,7 @@ struct BcCase {
   static BcCase parse(const std::string &t) {
     Reader r(t);
     BcCase c;
-    c.nthreads = (int)r.i("nthreads", 1); c.skip_first = (int)r.i("skip_first"); c.detach_mask = (int)r.i("detach_mask");
+    c.nthreads = (int)r.i("nthreads", 1); c.skip_first = (int)r.i("skip_first"); c.detach_mask = (int)r.i("detach_mask"); c.pool_flags = (int)r.i("pool_flags");
     int n = (int)r.i("nbcasts");
     for (int i = 0; i < n; i++) {
       auto v = r.iv(("b" + std::to_string(i)).c_str());
@@ -53,7 +53,7 @@ static bool in_domain(const BcCase &c, std::string &why) {
   int sync_in_pool = 0;
   for (auto &b : c.b) {
     bool sync = b.api == 0 && (b.flags & FL_SYNC);
-    if (sync && b.in_pool) {
+    if (sync && b.in_pool == 1) {
       sync_in_pool++;
       if (c.nthreads > 1 && !(b.flags & (FL_SELF_SKIP | FL_SELF_DIRECT))) { why = "sync_from_pool_to_self"; return false; }
     }
@@ -230,6 +230,7 @@ static Verdict evaluate(const BcCase &c, const c10_out &o, bool &hang) {
     bool nt = false;
     if (expect_fail || (o.running_mask != (1u << c.nthreads) - 1)) { label("some_target_not_running"); nt = true; }
     if (caller_in_pool) { label("caller_in_pool"); nt = true; }
+    if (b.in_pool == 2) { label("caller_is_a_thread_of_another_pool"); nt = true; }
     if (c.b.size() >= 2) { label("concurrent_broadcasts"); nt = true; }
     if (inj) { label("fault_injected"); nt = true; }
     if (o.res.vp_hits[4]) label("vp4_hit");
@@ -267,6 +268,7 @@ static Verdict run_case(const BcCase &c) {
   scn.nthreads = (uint8_t)std::max(1, std::min(16, c.nthreads));
   scn.skip_first = (uint8_t)c.skip_first;
   scn.detach_mask = (uint16_t)c.detach_mask;
+  scn.pool_flags = (uint8_t)c.pool_flags;
   scn.nbcasts = (uint8_t)std::min<size_t>(c.b.size(), C10_MAX_BCASTS);
   for (int i = 0; i < scn.nbcasts; i++) {
     scn.b[i].in_pool = (uint8_t)c.b[i].in_pool;
@@ -303,6 +305,7 @@ static rc::Gen<BcCase> genCase() {
     else dm = 0;
     if (*range<int>(0, 5) == 0) dm = ((1 << c.nthreads) - 1) & ~(1 << (c.nthreads - 1));  // everything but the last thread stopped
     c.detach_mask = dm;
+    c.pool_flags = *rc::gen::weightedElement<int>({{3, 0}, {1, 1}, {2, 2}, {1, 3}});
     int nb = *rc::gen::weightedElement<int>({{5, 1}, {2, 2}, {1, 3}});
     int sync_in_pool = 0;
     for (int i = 0; i < nb; i++) {
@@ -314,6 +317,7 @@ static rc::Gen<BcCase> genCase() {
       std::vector<int> run;
       for (int t = 0; t < c.nthreads; t++) if (!((dm >> t) & 1) && !(c.skip_first && t == 0)) run.push_back(t);
       if (run.empty()) b.in_pool = 0; else b.pool_idx = *rc::gen::elementOf(run);
+      if (b.api == 0 && *range<int>(0, 5) == 0) b.in_pool = 2;  // bsend_ex issued by a thread that belongs to another pool
       int fl = 0;
       if (*range<int>(0, 2) == 0) fl |= FL_SELF_DIRECT;
       if (*range<int>(0, 3) == 0) fl |= FL_FORCE;
@@ -322,7 +326,7 @@ static rc::Gen<BcCase> genCase() {
       if (b.api == 0) {
         if (*range<int>(0, 1)) fl |= FL_SYNC;
         if (*range<int>(0, 3) == 0) fl |= FL_SYNC_USLEEP;
-        if ((fl & FL_SYNC) && b.in_pool) {
+        if ((fl & FL_SYNC) && b.in_pool == 1) {
           // stay inside the documented envelope (see in_domain): add a self flag, one in-pool sync caller at most
           if (c.nthreads > 1 && !(fl & (FL_SELF_SKIP | FL_SELF_DIRECT))) fl |= (*range<int>(0, 1) ? FL_SELF_SKIP : FL_SELF_DIRECT);
           if (sync_in_pool) fl &= ~FL_SYNC; else sync_in_pool++;
